@@ -272,7 +272,7 @@ def renumber_cases():
             for sl in (slots[0], slots[-1]):
                 for alone in ('get_value_c', 'get_value_and_derivatives', 'values_from_database',
                               'refused:hessian-without-gradient', 'refused:variables-without-database',
-                              'second-model', 'null-loglikelihood'):
+                              'second-model', 'second-model-on-the-sub-formula', 'null-loglikelihood'):
                     for then in ('simulate', 'prepared'):
                         out.append((si, p, sl, alone, then))
     return out
@@ -319,6 +319,16 @@ def _renumber(idx, rec):
         elif alone == 'get_value_and_derivatives':
             sub_e.get_value_and_derivatives(database=db, gradient=False, hessian=False, bhhh=False, aggregation=False,
                                             prepare_ids=True)
+        elif alone == 'second-model-on-the-sub-formula':
+            # a second model is built on the sub-formula only (fewer parameters, columns in another order): the enclosing
+            # formula itself is not handed to it, only some of its nodes are numbered again
+            if then != 'simulate':
+                rec.case(None, (tag, 'n/a'), outcome='not-applicable')
+                return
+            extra_e = R.Builder(G.betas_spec()).build(('+', ('*', ('beta', 'b10'), ('var', 'x2')), ('beta', 'b_a')))
+            db2 = make_db(data, list(reversed(G.COLUMNS)))
+            b2 = make_biogeme(db2, {'sub': sub_e, 'extra': extra_e})
+            b2.simulate({n: full[n] for n in b2.free_beta_names})
         elif alone == 'second-model':
             # the same formula objects become part of a second model, on a table with the columns in another order and with
             # one more formula (other parameters): the first model must keep giving the same values
@@ -437,6 +447,94 @@ def _int_typed(rec):
                                           expected=want, observed=got)
 
 
+FIXH_TERMS = [
+    ('+', ('*', ('beta', 'a_fix'), ('var', 'x1')), ('*', ('beta', 'b_z'), ('beta', 'Z_fix'))),
+    ('exp', ('*', ('beta', 'Z_fix'), ('*', ('beta', 'b_a'), ('var', 'x2')))),
+    ('linutil', (('a_fix', 'x1'), ('b_z', 'x2'))),
+    ('loglogit', ('var', 'choice'), ((1, ('*', ('beta', 'a_fix'), ('var', 'x1')), None), (2, ('beta', 'b_z'), None),
+                                     (3, ('*', ('beta', 'Z_fix'), ('var', 'x2')), None))),
+]
+FIXH_OPS = ['eval-with-dictionary', 'eval', 'eval-kept-numbering', 'set-a_fix', 'set-Z_fix', 'set-b_z', 'fix-b_z']
+
+
+def _fixed_history(task, rec):
+    """Histories on ONE formula object that contains fixed parameters: every sequence of three operations over {evaluate with a
+    dictionary of values, evaluate without, evaluate with the numbering kept, change the value of a fixed parameter (two of
+    them), change the value of a free one, fix a free one}; every evaluation must give the mathematical value under the values
+    the parameters have at that moment (a dictionary names free parameters only)."""
+    from vf.engine import make_db, is_engine_error
+    term = FIXH_TERMS[task['term']]
+    rows = G.ROWS
+    db_cols = G.COLUMNS
+    for hist in itertools.product(FIXH_OPS, repeat=3):
+        if not hist[-1].startswith('eval') or all(o.startswith('eval') for o in hist[:2]) and hist[0] == hist[1] == hist[2]:
+            continue
+        cur = dict(G.PARAMS)
+        fixed_now = set(G.FIXED)
+        expr = R.Builder(G.betas_spec()).build(term)
+        db = make_db(rows, db_cols)
+        prepared = False
+        case = dict(part='fixed_history', term=task['term'], history=list(hist))
+        key = ('fixed_history', task['term'], hist)
+        ok = True
+        try:
+            for step, op in enumerate(hist):
+                if op.startswith('set-'):
+                    nm = op[4:]
+                    newv = {'a_fix': 3.25, 'Z_fix': -0.5, 'b_z': 1.75}[nm] + 0.25 * step
+                    expr.change_init_values({nm: newv})
+                    cur[nm] = newv
+                    continue
+                if op == 'fix-b_z':
+                    expr.fix_betas({'b_z': -0.375})
+                    cur['b_z'] = -0.375
+                    fixed_now.add('b_z')
+                    prepared = False          # the status of a parameter changed: the numbering must be made again
+                    continue
+                at = dict(cur)
+                if op == 'eval-with-dictionary':
+                    given = {nm: cur[nm] + 0.5 for nm in ('b_z', 'b_a') if nm in R.leaves(term, 'beta') and nm not in fixed_now}
+                    at.update(given)
+                    got = expr.get_value_c(database=db, betas=dict(given), prepare_ids=True)
+                    prepared = False
+                elif op == 'eval':
+                    got = expr.get_value_c(database=db, prepare_ids=True)
+                    prepared = False
+                else:
+                    if not prepared:
+                        expr.prepare(db, 10)
+                        prepared = True
+                    got = expr.get_value_c(database=db, prepare_ids=False)
+                    # with the numbering kept the values are those stored when the formula was numbered; a later change of
+                    # value is picked up or not depending on the kind of parameter: not judged unless nothing was changed since
+                    changed_since = any(o.startswith('set-') or o == 'fix-b_z' for o in hist[:step])
+                    if changed_since:
+                        rec.count('fixed_history_kept_numbering_after_a_change_not_judged')
+                        continue
+                got = [float(v) for v in got]
+                want = []
+                for r in rows:
+                    try:
+                        want.append(R.evaluate(term, r, at))
+                    except (R.OutOfDomain, R.Fragile):
+                        want.append(None)
+                bad = [(g, w) for g, w in zip(got, want) if w is not None and not R.close(g, w)]
+                if bad:
+                    ok = False
+                    rec.violation(f'C01|engine-value|history-on-one-formula-with-fixed-parameters:{op}',
+                                  f'{R.show(term)[:80]} history {hist[:step + 1]}: {got} expected {want} (values {at})', dict(case, step=step),
+                                  expected=want, observed=got)
+                    break
+        except Exception as e:
+            ok = False
+            rec.violation(f'C01|history-raised-{type(e).__name__}|history-on-one-formula-with-fixed-parameters',
+                          f'{R.show(term)[:80]} history {hist}: {type(e).__name__}: {str(e)[:160]}', case)
+            if is_engine_error(e):
+                rec.retire = True
+                return
+        rec.case(key, (task['term'], hist, ok), outcome=('fixed-history', ok))
+
+
 # ------------------------------------------------------------------ tasks
 def tasks(tier, seed):
     t = []
@@ -447,6 +545,8 @@ def tasks(tier, seed):
             t.append(dict(part='triple', lo=i, hi=min(i + chunk, len(tri)), rot=rot))
     t.append(dict(part='ncdf_tail'))
     t.append(dict(part='int_typed'))
+    for ti in range(len(FIXH_TERMS)):
+        t.append(dict(part='fixed_history', term=ti))
     for i in range(len(renumber_cases())):
         t.append(dict(part='renumber', idx=i))
     sh = share_terms()
@@ -495,6 +595,8 @@ def run_task(task):
             _renumber(task['idx'], rec)
         elif part == 'int_typed':
             _int_typed(rec)
+        elif part == 'fixed_history':
+            _fixed_history(task, rec)
         elif part == 'ncdf_tail':
             # the normal CDF on a grid reaching into both tails (the engine's upper tail is a recorded finding)
             for x in (-8.0, -6.0, -3.0, 0.0, 3.0, 5.5, 6.0, 6.5, 7.0, 8.0):
@@ -600,6 +702,9 @@ def replay(case):
             return run_task(dict(part='ncdf_tail'))['violations']
         elif part == 'int_typed':
             return run_task(dict(part='int_typed'))['violations']
+        elif part == 'fixed_history':
+            return [v for v in run_task(dict(part='fixed_history', term=case['term']))['violations']
+                    if v['case'].get('history') == case.get('history')]
         elif part == 'side':
             _side(dict(lo=case['idx'], hi=case['idx'] + 1, tier=case['tier']), rec)
         elif part == 'tree':
